@@ -113,6 +113,7 @@ type scenario struct {
 	DelayPM int    `json:"gate_delay_permille"`
 	PrePush int    `json:"pushes_sent_by_closing_side_before"` // earlier one-way traffic of the closing side on the same sessions
 	AgeMS   int    `json:"closing_side_session_age_ms"`        // > 0: the closing side's sessions have this age; it runs out while Close() waits for the handlers
+	Cut     string `json:"connection_lost_while_close_waits"`  // "", "eof", "reset": the far side's connection ends while Close() waits for the handlers (replies may be lost then; Close still waits)
 }
 
 type viol struct{ sym, what string }
@@ -296,6 +297,14 @@ func runScenario(id string, sc scenario, r *core.Rand) {
 		settle()
 		core.Add("closes_outlasting_the_session_age", 1)
 	}
+	if sc.Cut != "" {
+		// the connection ends while Close() is waiting for the handlers that were entered before it
+		for _, l := range links {
+			l.CA.Sever(sc.Cut == "reset")
+		}
+		settle()
+		core.Add("connections_lost_while_close_waited", int64(len(links)))
+	}
 	// a second, concurrent Close() of the same sessions must wait just like the first one
 	var close2Ret int64
 	closed2 := make(chan struct{})
@@ -392,7 +401,7 @@ func runScenario(id string, sc scenario, r *core.Rand) {
 			rw := find(links[li].xw, rc.tok)
 			if enter > 0 && enter < closeCall {
 				nEntered++
-				if !genuine {
+				if !genuine && sc.Cut == "" {
 					vs = append(vs, viol{"entered-call-lost-reply", fmt.Sprintf("call %s: handler entered (stamp %d) before Close() was called (stamp %d) but the caller got %v / %q instead of the genuine reply", rc.tok, enter, closeCall, st, rc.out)})
 				}
 				if exit == 0 || cret < exit {
@@ -407,7 +416,7 @@ func runScenario(id string, sc scenario, r *core.Rand) {
 			var li int
 			fmt.Sscanf(rc.tok[len(id)+1:], "%d.", &li)
 			rw := find(links[li].yw, rc.tok)
-			if rc.issued < closeCall && rw != 0 && !genuine {
+			if rc.issued < closeCall && rw != 0 && !genuine && sc.Cut == "" {
 				vs = append(vs, viol{"issued-call-lost-reply", fmt.Sprintf("call %s issued by the closing side before Close(): the peer wrote its reply (stamp %d), the connection was not cut, yet the call completed with %v", rc.tok, rw, st)})
 			}
 		}
@@ -420,7 +429,7 @@ func runScenario(id string, sc scenario, r *core.Rand) {
 	core.Add("calls_genuine_reply", int64(nOK))
 	py.Close()
 	px.Close()
-	sig := fmt.Sprintf("%s/%s/%s/k%d+%d/s%d/d%d/pp%d", sc.Proto, sc.Point, sc.Closer, sc.K, sc.K2, sc.Sess, sc.DelayPM, sc.PrePush) + fmt.Sprintf("/age%d", sc.AgeMS)
+	sig := fmt.Sprintf("%s/%s/%s/k%d+%d/s%d/d%d/pp%d", sc.Proto, sc.Point, sc.Closer, sc.K, sc.K2, sc.Sess, sc.DelayPM, sc.PrePush) + fmt.Sprintf("/age%d/cut%s", sc.AgeMS, sc.Cut)
 	if len(vs) == 0 {
 		nontrivial := nEntered > 0 || sc.K2 > 0
 		if nontrivial {
@@ -501,6 +510,14 @@ func main() {
 						scs = append(scs, scenario{Proto: pn, K: k[0], K2: k[1], Point: pt, Closer: cl, Class: "placed", Sess: sess, DelayPM: 200})
 					}
 				}
+			}
+		}
+	}
+	// the connection is lost while Close() waits for handlers that were entered before it: Close still returns only after they exited
+	for _, pn := range protosQ {
+		for _, pt := range []string{"inside", "handlecall.beforeReply"} {
+			for ci, cl := range []string{"session", "peer", "double"} {
+				scs = append(scs, scenario{Proto: pn, K: 3, K2: 1, Point: pt, Closer: cl, Class: "placed-cut", Sess: 1, Cut: []string{"eof", "reset"}[ci%2]})
 			}
 		}
 	}
